@@ -7,17 +7,18 @@ from .wblock import run_assemble
 from .c16 import FakeMatch
 
 
-def make_ref(st, title):
+def make_ref(st, title, authors=None):
     r = st.Reference()
     r.title = title
-    r.authors = "A. " + title
+    r.authors = ("A. " + title) if authors is None else authors
+    r.journal = "J. " + r.authors
     return r
 
 
 def snap_value(v):
     tn = type(v).__name__
     if tn == "Reference":
-        return ("ref", v.title, v.authors)
+        return ("ref", v.title, v.authors, getattr(v, "journal", ""), getattr(v, "pubmed_id", ""))
     if isinstance(v, (list, tuple)):
         return [snap_value(x) for x in v]
     if isinstance(v, dict):
